@@ -99,6 +99,7 @@ type Sess struct {
 	targets  map[ecs.Entity]bool // every non-zero target ever used
 	RecAll   [][]RecEvent
 	gfs      map[int]*gfState
+	kept     *keptDump
 	Res      *ResModel
 	ResIDs   []ecs.ResID
 	ResKeys  []string
@@ -856,6 +857,9 @@ func (s *Sess) apply(op *Op, out *Outcome) []ExpEvent {
 	case "Reset":
 		m.Reset()
 		s.Res.Reset()
+		for t := range s.targets {
+			delete(s.targets, t)
+		}
 	case "ResAdd":
 		s.Res.Present[op.ID] = s.keep[len(s.keep)-1]
 	case "ResRemove":
